@@ -61,6 +61,9 @@ def model_validity():
     return ok >= 5
 
 
+SLOW = {'C14': 48, 'C13': 24, 'C10': 200}
+
+
 def determinism(checks, cases=600):
     """each check: digest with 16 workers == digest with 3 workers == digest in a fresh interpreter under other
     hash seeds; and run twice"""
@@ -69,7 +72,7 @@ def determinism(checks, cases=600):
         digs = []
         for workers, hs in ((16, '0'), (3, '0'), (16, '1'), (5, '12345'), (16, '0')):
             env = dict(os.environ, PYTHONHASHSEED=hs)
-            r = subprocess.run([sys.executable, str(VERIF / 'run_check.py'), cid, '--cases', str(cases), '--workers',
+            r = subprocess.run([sys.executable, str(VERIF / 'run_check.py'), cid, '--cases', str(SLOW.get(cid, cases)), '--workers',
                                 str(workers), '--digest-only'], env=env, capture_output=True, text=True, timeout=900)
             line = [ln for ln in r.stdout.splitlines() if ln.startswith('DIGEST')]
             if not line:
